@@ -4,6 +4,7 @@
 From Coq Require Import ZArith List Bool String Reals.
 From VQ Require Import Num Model.Vec Model.Core Model.Machine Model.Inventory Proofs.CoreKmeans Proofs.CorePure Glue.CoreGlue Glue.Pin_p_kmeans Glue.Pin_inv_euclid Glue.Pin_inv_cosine.
 From VQ Require Import Glue.Pin_fp_C14.
+From VQ Require Import Model.InitOrder Proofs.InitOrderProofs Glue.InitOrderGlue.
 Import ListNotations.
 Open Scope R_scope.
 
@@ -144,3 +145,46 @@ Theorem C14_tie_source_footprint :
   fp_C14.fp_C14 = pinned_fp_C14.
 Proof. exact (@Pin_fp_C14.pin_fp_C14). Qed.
 Print Assumptions C14_tie_source_footprint.
+
+Theorem C14_euclid_failed_init_writes_nothing :
+  forall (k : nat) (c : string * string),
+       nth_error o_euclid_init.o_euclid_init k = Some c ->
+       is_write c = false ->
+       written k o_euclid_init.o_euclid_init = [] /\ flag_set k o_euclid_init.o_euclid_init = false.
+Proof. exact (@InitOrderGlue.euclid_failed_init_writes_nothing). Qed.
+Print Assumptions C14_euclid_failed_init_writes_nothing.
+
+Theorem C14_cosine_failed_init_writes_nothing :
+  forall (k : nat) (c : string * string),
+       nth_error o_cosine_init.o_cosine_init k = Some c ->
+       is_write c = false ->
+       written k o_cosine_init.o_cosine_init = [] /\ flag_set k o_cosine_init.o_cosine_init = false.
+Proof. exact (@InitOrderGlue.cosine_failed_init_writes_nothing). Qed.
+Print Assumptions C14_cosine_failed_init_writes_nothing.
+
+Theorem C14_euclid_flag_implies_complete :
+  forall k : nat,
+       flag_set k o_euclid_init.o_euclid_init = true ->
+       (Datatypes.length o_euclid_init.o_euclid_init <= k)%nat.
+Proof. exact (@InitOrderGlue.euclid_flag_implies_complete). Qed.
+Print Assumptions C14_euclid_flag_implies_complete.
+
+Theorem C14_cosine_flag_implies_complete :
+  forall k : nat,
+       flag_set k o_cosine_init.o_cosine_init = true ->
+       (Datatypes.length o_cosine_init.o_cosine_init <= k)%nat.
+Proof. exact (@InitOrderGlue.cosine_flag_implies_complete). Qed.
+Print Assumptions C14_cosine_flag_implies_complete.
+
+Theorem C14_failed_compute_writes_nothing :
+  forall (calls : list (string * string)) (k : nat) (c : string * string),
+       computes_before_writes calls = true ->
+       nth_error calls k = Some c -> is_write c = false -> written k calls = [].
+Proof. exact (@InitOrderProofs.failed_compute_writes_nothing). Qed.
+Print Assumptions C14_failed_compute_writes_nothing.
+
+Theorem C14_early_flag_refuted :
+  exists (calls : list (string * string)) (k : nat) (c : string * string),
+         nth_error calls k = Some c /\ is_write c = false /\ flag_set k calls = true.
+Proof. exact (@InitOrderProofs.early_flag_refuted). Qed.
+Print Assumptions C14_early_flag_refuted.
